@@ -12,6 +12,14 @@ RULE = ("(a) plaintext correspondence: real opaque tokens of every class are dec
         "and JWT access tokens: every genuine token in every slot (userinfo, introspection, revocation, code slot, refresh slot), tokens "
         "of a second provider instance, and byte-level mutants of every genuine token (truncation, every sampled 1-char substitution / "
         "insertion / deletion, base64 re-encoding and padding games, JWT segment swaps, alg none, foreign signature) in their own slot. "
+        "(d) the bearer CLIENT CREDENTIAL: on providers whose revocation / introspection / token / PAR / userinfo endpoints allow the client "
+        "authentication methods bearer_header / bearer_body (three method-list configurations, JWT, opaque and alias handler variants), every "
+        "genuine token of every class (fresh and spent code, access, refresh, ID Token) of several live sessions and clients, the tokens of a "
+        "second provider instance, byte-level mutants and key-confusion forgeries of access tokens are offered as `Authorization: Bearer` / "
+        "`authorization: Bearer` / body access_token credential, before and after a class-agnostic lookup of the same value: only an unmodified "
+        "access token of this provider authenticates, as the client it was minted for; a full revocation request under a refused credential "
+        "leaves its target alone, under an accepted one it acts for that client only; the outcomes of the genuine tokens in the userinfo, bearer "
+        "and generic slot are compared with Model/TokenFmt.v slot_client. "
         "A case is one presentation; non-trivial when the presented string derives from a genuine token.")
 ASSUMPTIONS = ["Fernet is an authenticated encryption and JWS signatures are unforgeable (symbolic model); byte-level mutations are exercised on the real libraries",
                "rndstr(32) / uuid values are fresh"]
@@ -347,8 +355,7 @@ def endpoint_oracle(ctx, rng, variant, n_flows, n_mut):
                     try:
                         ep = rs.server.get_endpoint("token_revocation")
                         saved = ep.client_authn_method
-                        from idpyoidc.server.client_authn import BearerHeader
-                        ep.client_authn_method = [BearerHeader(upstream_get=ep.upstream_get)]
+                        ep.client_authn_method = ["bearer_header"]       # the endpoint holds method names
                         try:
                             p = ep.parse_request({"token": rs.tokens[f["access_token"]]},
                                                  http_info={"headers": {"authorization": "Bearer " + rs.tokens[tid]}})
@@ -359,7 +366,8 @@ def endpoint_oracle(ctx, rng, variant, n_flows, n_mut):
                         accepted = False
                     if accepted:
                         ctx.violation("wrong-class-accepted", "%s accepted as bearer credential at the revocation endpoint" % real_cls,
-                                      {"variant": variant, "class": real_cls})
+                                      {"variant": variant, "class": real_cls, "endpoint": "token_revocation", "form": "header",
+                                       "credential": rs.tokens[tid][:200], "owner": [f["user"], f["client"]]})
             # ---- every genuine token in every slot
             for cls in ("access_token", "refresh_token", "id_token", "code"):
                 tid = f[cls]
@@ -479,6 +487,378 @@ def endpoint_oracle(ctx, rng, variant, n_flows, n_mut):
         rs2.close()
 
 
+# ---------------------------------------------------------------------------------------------------------------
+# the bearer CLIENT CREDENTIAL slot: `Authorization: Bearer <value>` (bearer_header) and body `access_token`
+# (bearer_body) as client authentication at the endpoints that allow those methods
+MIXED_AUTHN = ["client_secret_post", "client_secret_basic", "bearer_header", "bearer_body"]
+BEARER_ENDPOINTS = ["token_revocation", "introspection", "token", "pushed_authorization", "userinfo"]
+FORMS = ["header", "Header", "body"]
+MCLS = {"authorization_code": 0, "access_token": 1, "refresh_token": 2, "id_token": 3}
+
+
+def revocation_authn_configs():
+    """the method lists the revocation endpoint is configured with, in turn: bearer next to the secret methods,
+    bearer only, and the list the endpoint class itself declares as its default"""
+    out = [("mixed", list(MIXED_AUTHN)), ("bearer-only", ["bearer_header", "bearer_body"])]
+    try:
+        from idpyoidc.server.oauth2.token_revocation import TokenRevocation
+        dflt = list(TokenRevocation.default_capabilities["client_authn_method"])
+        if any(m.startswith("bearer") for m in dflt):
+            out.append(("class-default", dflt))
+    except Exception:
+        pass
+    return out
+
+
+def bearer_auth(ep, value, form, body=None):
+    """client authentication of the real endpoint with `value` as bearer credential.
+    -> (client_id or None, method or detail)"""
+    req = dict(body or {})
+    http_info = {}
+    if form == "body":
+        req["access_token"] = value
+    else:
+        http_info = {"headers": {("authorization" if form == "header" else "Authorization"): "Bearer " + value}}
+    try:
+        ai = ep.client_authentication(ep.request_cls(**req), http_info, endpoint=ep)
+    except Exception as e:
+        return None, "exc:" + type(e).__name__
+    cid = ai.get("client_id") if isinstance(ai, dict) else None
+    if cid and ai.get("method") not in (None, "none", "public"):
+        return cid, ai.get("method")
+    return None, "no-client"
+
+
+def userinfo_under(rs, value, form):
+    """a complete userinfo request with `value` as the bearer token (header or body access_token): the endpoint's answer
+    counts, not the client-authentication stage alone (process_request looks the value up again).
+    -> (client the response is for or None, detail)"""
+    ep = rs.ep["userinfo"]
+    req, http_info = {}, {}
+    if form == "body":
+        req["access_token"] = value
+    else:
+        http_info = {"headers": {("authorization" if form == "header" else "Authorization"): "Bearer " + value}}
+    try:
+        p = ep.parse_request(req, http_info=http_info)
+        if "error" in p:
+            return None, "parse:" + str(p["error"])
+        r = ep.process_request(p)
+        ra = r.get("response_args", r) if isinstance(r, dict) else r
+        if "error" in ra or not ra.get("sub"):
+            return None, "process:" + str(ra.get("error"))
+        return (r.get("client_id") or p.get("client_id")), "userinfo-response"
+    except Exception as e:
+        return None, "exc:" + type(e).__name__
+
+
+def revoke_under(rs, value, form, target):
+    """a complete revocation request (parse_request, process_request) whose only credential is `value`.
+    -> (authenticated client or None, carried_out)"""
+    ep = rs.ep["token_revocation"]
+    req = {"token": target}
+    http_info = {}
+    if form == "body":
+        req["access_token"] = value
+    else:
+        http_info = {"headers": {("authorization" if form == "header" else "Authorization"): "Bearer " + value}}
+    try:
+        p = ep.parse_request(req, http_info=http_info)
+        if "error" in p:
+            return None, False
+        who = p.get("client_id") if p.get("authenticated") else None
+        r = ep.process_request(p)
+        ra = r.get("response_args", r) if isinstance(r, dict) else r
+        return who, "error" not in ra
+    except Exception:
+        return None, False
+
+
+def bearer_oracle(ctx, rng, variant, authn, n_flows, n_mut):
+    shared, jwt, idt_alg = variant[:3]
+    alias = len(variant) > 3 and variant[3] == "alias"
+    jwt_refresh = len(variant) > 4 and variant[4]
+    authn_name, authn_list = authn
+    old_mk, old_conf = srv.make_server, srv.op_conf
+
+    def mk(*a, **k):
+        k.setdefault("pinned", shared)
+        return old_mk(*a, **k)
+
+    def conf_with_bearer(*a, **k):
+        conf = old_conf(*a, **k)
+        for name, spec in conf["endpoint"].items():
+            if name not in BEARER_ENDPOINTS:
+                continue
+            cur = spec["kwargs"].get("client_authn_method") or []
+            if name == "token_revocation":
+                spec["kwargs"]["client_authn_method"] = list(authn_list)
+            else:
+                spec["kwargs"]["client_authn_method"] = list(cur) + [m for m in ("bearer_header", "bearer_body") if m not in cur]
+        return conf
+    srv.make_server, srv.op_conf = mk, conf_with_bearer
+    try:
+        over = {c: {"id_token_signed_response_alg": idt_alg} for c in sess.CLIENTS} if idt_alg else None
+        rs = sess.RealSession(oidc=True, jwt_access=jwt, client_over=over, alias_kwargs=alias, jwt_refresh=jwt_refresh)
+        rs2 = sess.RealSession(oidc=True, jwt_access=jwt, client_over=over, alias_kwargs=alias, jwt_refresh=jwt_refresh)
+    finally:
+        srv.make_server, srv.op_conf = old_mk, old_conf
+    cfg_term = "(%s, %s, %s, %s, %s)" % (coq_nat(0), coq_nat(1 if jwt else 0), coq_nat(1 if jwt_refresh else 0), coq_bool(not shared),
+                                          coq_bool((idt_alg or "RS256") != "ES256"))
+    model_cases = []
+    try:
+        def flow(r, u, c):
+            r.find_new_grants()
+            r.harvest()        # what direct presentations minted meanwhile is registered first: o[1] is then the new code alone
+            o = r.run(("authz", u, c, ["openid", "email", "offline_access"]))
+            code = o[1][0]
+            spare = r.run(("authz", u, c, ["openid", "email", "offline_access"]))[1][0]
+            tp = r.run(("tparse", c, ("tok", code), "same"))
+            p = r.run(("proc", len(r.parsed) - 1, None))
+            if p[0] != "ok":
+                raise RuntimeError("flow of (%s, %s) did not complete: %r after %r / %r / %r" % (u, c, p, o, tp, r.parsed[-1]))
+            return {"user": u, "client": c, "spent_code": code, "code": spare, "access_token": p[1]["access_token"],
+                    "refresh_token": p[1]["refresh_token"], "id_token": p[1]["id_token"]}
+        # many sessions live at once: two users at one client, one user at two clients, then random ones
+        pairs = [("diana", "client_1"), ("babs", "client_1"), ("diana", "client_2")]
+        pairs += [(rng.choice(sess.USERS), rng.choice(sess.CLIENTS)) for _ in range(max(0, n_flows - len(pairs)))]
+        flows = [flow(rs, u, c) for u, c in pairs]
+        f2 = flow(rs2, "diana", "client_1")
+        targets = {}
+
+        def live(tid):
+            t = rs.tokobj[tid]
+            return (not t.revoked) and t.is_active()
+
+        def target_for(client, not_flow=None):
+            """a live access token of ANOTHER session of that client"""
+            tid = targets.get(client)
+            if tid is None or not live(tid):
+                u = rng.choice([x for x in sess.USERS if not_flow is None or x != not_flow["user"]])
+                tid = targets[client] = flow(rs, u, client)["access_token"]
+            return tid
+
+        # ---- the credentials
+        creds = []       # (label, value, kind, class, owner flow)
+        for f in flows:
+            for key in ("spent_code", "code", "access_token", "refresh_token", "id_token"):
+                tid = f[key]
+                creds.append((key, rs.tokens[tid], "genuine", rs.tokobj[tid].token_class, f))
+        for key in ("spent_code", "code", "access_token", "refresh_token", "id_token"):
+            creds.append(("foreign-" + key, rs2.tokens[f2[key]], "foreign", rs2.tokobj[f2[key]].token_class, None))
+        for f in flows[:2]:
+            val = rs.tokens[f["access_token"]]
+            other = rs.tokens[flows[2]["access_token"]]
+            muts = mutants(rng, val, other)
+            for name, m in rng.sample(muts, min(n_mut, len(muts))):
+                creds.append(("mutant-" + name, m, "mutant", "access_token", f))
+            for name, m in jwt_forgeries(rs, val, sess.CLIENTS):
+                creds.append(("forged-" + name, m, "mutant", "access_token", f))
+        # a wrong-class value of one session spliced with the access token of another (JWT: payload / signature swaps are
+        # in the mutants; opaque: the halves of two ciphertexts)
+        a, b = rs.tokens[flows[0]["access_token"]], rs.tokens[flows[0]["refresh_token"]]
+        creds.append(("mutant-splice-access-refresh", a[:len(a) // 2] + b[len(b) // 2:], "mutant", "access_token", flows[0]))
+        creds.append(("mutant-splice-refresh-access", b[:len(b) // 2] + a[len(a) // 2:], "mutant", "access_token", flows[0]))
+        genuine_values = {rs.tokens[i]: i for i in range(len(rs.tokens))}
+
+        def mutant_key(value, f):
+            """an altered value that a non-validating base64 decoder maps to the bytes of the owner's genuine opaque access
+            token (characters outside the alphabet, data after the padding) has a signature of its own"""
+            try:
+                gen = rs.tokens[f["access_token"]]
+                if "." not in gen and value != gen and base64.b64decode(value) == base64.b64decode(gen):
+                    return "reencoded-bearer-credential"
+            except Exception:
+                pass
+            return "mutant-accepted"
+
+        def judge(where, label, value, kind, cls, f, form, phase, who, rec):
+            """the oracle of one offering: who = the client the provider authenticated (None: refused)"""
+            if who is None:
+                return
+            tid = genuine_values.get(value)
+            if kind == "genuine" and cls == "access_token" and tid is not None:
+                if who != f["client"]:
+                    ctx.violation("resolves-elsewhere", "access token of (%s,%s) as bearer credential at %s authenticates client %s"
+                                  % (f["user"], f["client"], where, who), rec)
+                return
+            if kind == "foreign":
+                ctx.violation("foreign-accepted", "a %s of another provider instance authenticates client %s as bearer credential (%s) at %s"
+                              % (cls, who, form, where), rec)
+            elif kind == "mutant":
+                ctx.violation(mutant_key(value, f), "%s of an access token authenticates client %s as bearer credential (%s) at %s"
+                              % (label, who, form, where), rec)
+            else:
+                ctx.violation("wrong-class-accepted", "%s (%s) authenticates client %s as bearer credential (%s) at %s, %s a class-agnostic lookup"
+                              % (cls, label, who, form, where, phase), rec)
+
+        resolving = [n for n in BEARER_ENDPOINTS if n in rs.ep or n in ("pushed_authorization",)]
+        eps = {}
+        for n in resolving:
+            try:
+                eps[n] = rs.server.get_endpoint(n)
+            except Exception:
+                pass
+        for phase in ("before", "after"):
+            if phase == "after":
+                # the class-agnostic lookups: introspection with the client's secret, the session manager's own
+                for label, value, kind, cls, f in creds:
+                    present(rs, "introspection", value, f["client"] if f else "client_1")
+                    try:
+                        si = rs.sm.get_session_info_by_token(value, grant=True)
+                        gen_client = si.get("client_id")
+                    except Exception:
+                        gen_client = None
+                    if kind in ("genuine", "foreign") and label not in ("spent_code", "foreign-spent_code"):
+                        rec = {"variant": variant, "slot": "generic", "class": cls, "kind": kind, "client": gen_client}
+                        model_cases.append(("(%s, (%s, %s, %s), %s, %s, %s)" % (
+                            cfg_term, coq_nat(MCLS[cls]), coq_bool(kind == "foreign"), coq_bool(not shared), coq_nat(4),
+                            coq_str(f["client"] if f else "client_1"), coq_opt(gen_client, coq_str, "pystr")), rec))
+            # ---- client authentication with the value as only credential, at every endpoint that allows bearer methods
+            for label, value, kind, cls, f in creds:
+                for epn, ep in eps.items():
+                    body = {"token": rs.tokens[flows[0]["access_token"]]} if epn in ("token_revocation", "introspection") else {}
+                    for form in FORMS:
+                        if kind == "mutant" and form == "Header":
+                            continue
+                        who, how = bearer_auth(ep, value, form, body)
+                        if epn == "userinfo":
+                            # the stage alone is an observation; the endpoint's verdict is that of the whole request
+                            ctx.count("bearer-cred:userinfo-authn-stage:%s:%s" % (kind, "authenticated" if who else "refused"))
+                            who, how = userinfo_under(rs, value, form)
+                        rec = {"variant": variant, "authn": authn_name, "endpoint": epn, "form": form, "phase": phase, "credential": label,
+                               "class": cls, "kind": kind, "authenticated": who, "how": how,
+                               "owner": [f["user"], f["client"]] if f else None, "value": value[:200]}
+                        ctx.case_seen(rec, True)
+                        ctx.count("bearer-cred:%s:%s@%s:%s" % (kind, cls if kind != "mutant" else "mutant", epn, "authenticated" if who else "refused"))
+                        judge(epn, label, value, kind, cls, f, form, phase, who, rec)
+                        if kind == "genuine" and cls == "access_token" and epn in ("token_revocation", "userinfo") and who is None \
+                                and ((form == "body" and "bearer_body" in ep.client_authn_method) or
+                                     (form != "body" and "bearer_header" in ep.client_authn_method)):
+                            ctx.violation("genuine-refused", "a live access token is refused as bearer credential (%s) at %s: %s" % (form, epn, how), rec)
+                        if form == "header" and phase == "before" and kind in ("genuine", "foreign") and label not in ("spent_code", "foreign-spent_code") \
+                                and epn in ("token_revocation", "userinfo") and "bearer_header" in ep.client_authn_method:
+                            model_cases.append(("(%s, (%s, %s, %s), %s, %s, %s)" % (
+                                cfg_term, coq_nat(MCLS[cls]), coq_bool(kind == "foreign"), coq_bool(not shared),
+                                coq_nat(3 if epn == "token_revocation" else 2), coq_str(f["client"] if f else "client_1"),
+                                coq_opt(who, coq_str, "pystr")), rec))
+            # ---- the whole request: revocation of a live access token of ANOTHER session, the value being the only credential
+            rev = rs.ep["token_revocation"]
+            for label, value, kind, cls, f in creds:
+                if kind == "mutant" and not (label.startswith("mutant-splice") or rng.random() < 0.25):
+                    continue
+                owner_client = f["client"] if f else "client_1"
+                for form in ("header", "body"):
+                    if (form == "body" and "bearer_body" not in rev.client_authn_method) or (form == "header" and "bearer_header" not in rev.client_authn_method):
+                        continue
+                    for tclient in (owner_client, [c for c in sess.CLIENTS if c != owner_client][0]):
+                        tid = target_for(tclient, f)
+                        who, done = revoke_under(rs, value, form, rs.tokens[tid])
+                        gone = not live(tid)
+                        rec = {"variant": variant, "authn": authn_name, "endpoint": "token_revocation", "whole_request": True, "form": form,
+                               "phase": phase, "credential": label, "class": cls, "kind": kind, "authenticated": who, "carried_out": done,
+                               "target_client": tclient, "target_revoked": gone, "owner": [f["user"], f["client"]] if f else None,
+                               "value": value[:200]}
+                        ctx.case_seen(rec, True)
+                        ctx.count("bearer-revocation:%s:%s:%s" % (kind, cls if kind != "mutant" else "mutant",
+                                                                    "revoked" if gone else ("authenticated" if who else "refused")))
+                        judge("token_revocation (whole request)", label, value, kind, cls, f, form, phase, who, rec)
+                        ok_cred = kind == "genuine" and cls == "access_token" and value in genuine_values
+                        if gone and not ok_cred:
+                            ctx.violation("wrong-class-accepted" if kind == "genuine" else mutant_key(value, f) if kind == "mutant" else "foreign-accepted",
+                                          "a revocation request whose only credential is %s (%s, %s) revoked the access token of another session of %s"
+                                          % (label, cls, form, tclient), rec)
+                        if gone and ok_cred and tclient != f["client"]:
+                            ctx.violation("resolves-elsewhere", "the access token of client %s as bearer credential revoked a token of client %s"
+                                          % (f["client"], tclient), rec)
+                        if ok_cred and tclient == f["client"] and not gone:
+                            ctx.violation("genuine-refused", "a live access token of %s as bearer credential (%s) does not let it revoke its own token"
+                                          % (tclient, form), rec)
+        # ---- nothing of the above used anything up: the fresh codes and the refresh tokens still work, the spent codes do not
+        for f in flows:
+            for slot, key in (("userinfo", "access_token"), ("refresh", "refresh_token"), ("code", "code")):
+                v, d = present(rs, slot, rs.tokens[f[key]], f["client"])
+                if v != "accepted":
+                    ctx.violation("genuine-refused", "%s refused in its slot after having been offered as bearer credential: %s" % (key, d),
+                                  {"variant": variant, "authn": authn_name, "class": key})
+        # ---- only a LIVE access token speaks for a client: histories that end a genuine access token (revoked through the
+        #      session manager / at the revocation endpoint with the client's secret, its grant revoked, the client's session
+        #      revoked, the clock past its lifetime), then the token as the only credential - at every endpoint's client
+        #      authentication, in a whole userinfo request, and in a whole revocation request aimed at a live refresh token of
+        #      another session of the same client
+        rev = rs.ep["token_revocation"]
+        secret_ok = "client_secret_post" in rev.client_authn_method
+        histories = ["revoked-api", "revoked-endpoint" if secret_ok else "revoked-api-recursive", "grant-revoked", "client-session-revoked", "expired"]
+        dead = []
+        for how in histories:
+            c = rng.choice(sess.CLIENTS)
+            f = flow(rs, rng.choice(["diana", "dian"]), c)
+            tgt = flow(rs, "babs", c)["refresh_token"]
+            dead.append((how, f, tgt))
+        for how, f, tgt in dead:
+            tid = f["access_token"]
+            gi = rs.tok_grant[tid]
+            if how == "revoked-api":
+                out = rs.run(("api_revoke", ("tok", tid), False))
+            elif how == "revoked-api-recursive":
+                out = rs.run(("api_revoke", ("tok", tid), True))
+            elif how == "revoked-endpoint":
+                out = rs.run(("revoke_ep", f["client"], ("tok", tid)))
+            elif how == "grant-revoked":
+                out = rs.run(("revoke_grant", gi))
+            elif how == "client-session-revoked":
+                out = rs.run(("revoke_client", gi))
+            else:
+                rs.run(("tick", 700))
+                out = rs2.run(("tick", 700))       # the clock installed last is the one the library reads
+            if out[0] != "ok":
+                ctx.notes.append("bearer history %s could not be run: %r" % (how, out))
+                continue
+            value = rs.tokens[tid]
+            for epn, ep in eps.items():
+                body = {"token": rs.tokens[tgt]} if epn in ("token_revocation", "introspection") else {}
+                for form in FORMS:
+                    who, stage = bearer_auth(ep, value, form, body)
+                    if epn == "userinfo":
+                        ctx.count("bearer-cred:userinfo-authn-stage:dead:%s" % ("authenticated" if who else "refused"))
+                        who, stage = userinfo_under(rs, value, form)
+                    rec = {"variant": variant, "authn": authn_name, "endpoint": epn, "form": form, "history": how, "credential": "access_token",
+                           "class": "access_token", "kind": "dead", "authenticated": who, "how": stage, "owner": [f["user"], f["client"]],
+                           "value": value[:200]}
+                    ctx.case_seen(rec, True)
+                    ctx.count("bearer-cred:dead:%s@%s:%s" % (how, epn, "authenticated" if who else "refused"))
+                    if who is not None:
+                        ctx.violation("dead-bearer-credential", "an access token that is %s authenticates client %s as bearer credential (%s) at %s"
+                                      % (how, who, form, epn), rec)
+            for form in ("header", "body"):
+                if (form == "body" and "bearer_body" not in rev.client_authn_method) or (form == "header" and "bearer_header" not in rev.client_authn_method):
+                    continue
+                if not live(tgt):
+                    ctx.notes.append("bearer history %s: the target is not live before the request" % how)
+                    continue
+                who, done = revoke_under(rs, value, form, rs.tokens[tgt])
+                gone = not live(tgt)
+                rec = {"variant": variant, "authn": authn_name, "endpoint": "token_revocation", "whole_request": True, "form": form, "history": how,
+                       "credential": "access_token", "class": "access_token", "kind": "dead", "authenticated": who, "carried_out": done,
+                       "target_client": f["client"], "target_revoked": gone, "owner": [f["user"], f["client"]], "value": value[:200]}
+                ctx.case_seen(rec, True)
+                ctx.count("bearer-revocation:dead:%s:%s" % (how, "revoked" if gone else ("authenticated" if who else "refused")))
+                if who is not None or gone:
+                    ctx.violation("dead-bearer-credential", "a revocation request whose only credential is an access token that is %s (%s) %s"
+                                  % (how, form, "revoked the refresh token of another session of %s" % f["client"] if gone else
+                                     "is taken as authenticated by %s" % who), rec)
+    finally:
+        rs.close()
+        rs2.close()
+    ctx.coq_check_cases(["Lib.Base", "Lib.PyStr", "Lib.Crypto", "Model.Lv", "Model.TokenFmt"],
+                        "(nat * nat * nat * bool * bool) * (nat * bool * bool) * nat * pystr * option pystr", "chk_slot", model_cases,
+                        label="slot_%s" % authn_name.replace("-", "_"))
+
+
+VARIANTS = [(True, False, None), (False, False, None), (True, True, None), (True, True, "ES256"),
+            (True, False, None, "alias", False), (True, True, None, "alias", True)]
+
+
 def run(ctx):
     rng = ctx.rng
     server = srv.make_server()
@@ -486,9 +866,14 @@ def run(ctx):
     info_matrix(ctx, True)
     info_matrix(ctx, False)
     # the last two: the handler slots of one kind reference one kwargs dict (opaque x3; JWT access + JWT refresh)
-    for variant in [(True, False, None), (False, False, None), (True, True, None), (True, True, "ES256"),
-                    (True, False, None, "alias", False), (True, True, None, "alias", True)]:
+    for variant in VARIANTS:
         endpoint_oracle(ctx, rng, variant, 2 if ctx.quick else 12, 14 if ctx.quick else 80)
+    configs = revocation_authn_configs()
+    for i, variant in enumerate(VARIANTS):
+        for j, authn in enumerate(configs):
+            if ctx.quick and j != i % len(configs):
+                continue
+            bearer_oracle(ctx, rng, variant, authn, 3 if ctx.quick else 8, 10 if ctx.quick else 60)
 
 
 def replay(ctx, rp):
